@@ -28,6 +28,11 @@ def gen(rng, tier):
                     continue  # a local variable cannot have a non-syntactic name
                 for depth in (0, 1, 2, 3, 10000):
                     cases.append({"role": role, "defined": list(subset), "depth": depth})
+    # a binding to None is a binding: the first scope that defines the name wins even then
+    for r in range(1, 5):
+        for subset in itertools.combinations(["builtin", "local", "global", "extra"], r):
+            for depth in (0, 2):
+                cases.append({"role": "arg-none", "defined": list(subset), "depth": depth})
     return cases
 
 
@@ -44,7 +49,7 @@ def nontrivial(c, mo, obs):
 
 
 def _name(c):
-    return {"arg": "nm", "callee": "nm", "dotted": "mod", "bq": "my nm"}[c["role"]]
+    return {"arg": "nm", "callee": "nm", "dotted": "mod", "bq": "my nm", "arg-none": "nm"}[c["role"]]
 
 
 def expected(c):
@@ -54,6 +59,9 @@ def expected(c):
     order = ["data", "builtin", "local", "global", "extra"]
     if c["role"] in ("callee", "dotted"):
         order = order[1:]
+    if c["role"] == "arg-none":
+        # the first defining scope binds None: sel(x, None) returns x, whose first entry is 1.0
+        return ["ok", "1.0"] if any(s in c["defined"] for s in order) else ["err", "Key"]
     for s in order:
         if s in c["defined"]:
             if s == "local":
@@ -80,7 +88,21 @@ def model_cmd(c):
         lo = [[name, obj(10.0 + j)]] if "local" in d else []
         gl = [[name, obj(20.0 + j)]] if "global" in d else []
         stack.append([lo, gl])
-    role = "arg" if c["role"] in ("arg", "bq") else "callee"
+    if c["role"] == "arg-none":
+        order = ["builtin", "local", "global", "extra"]
+        first = next(s for s in order if s in d)
+
+        def mark(scope, v):
+            return ["m", "1.0" if scope == first else str(v)]
+        builtins = [[name, mark("builtin", VAL["builtin"])]] if "builtin" in d else []
+        extra = [[name, mark("extra", VAL["extra"])]] if "extra" in d else []
+        stack = []
+        for j in range(NFRAMES):
+            lo = [[name, mark("local", 10.0 + j)]] if "local" in d else []
+            gl = [[name, mark("global", 20.0 + j)]] if "global" in d else []
+            stack.append([lo, gl])
+        data = []
+    role = "arg" if c["role"] in ("arg", "bq", "arg-none") else "callee"
     path = [name] if c["role"] != "dotted" else ["mod", "nm"]
     return core.sshow(["c11", role, str(c["depth"]), path, data, builtins, stack, extra])
 
@@ -96,7 +118,13 @@ def _run(c):
     d = c["defined"]
     role = c["role"]
 
-    def val(v):
+    none_first = None
+    if role == "arg-none":
+        none_first = next(sc for sc in ["builtin", "local", "global", "extra"] if sc in d)
+
+    def val(v, scope=None):
+        if role == "arg-none":
+            return None if scope == none_first else float(v)
         if role in ("arg", "bq"):
             return np.full(n, float(v))
         fn = (lambda x, _v=float(v): x * 0 + _v)
@@ -106,18 +134,22 @@ def _run(c):
     if "data" in d:
         cols[name] = np.full(n, VAL["data"])
     df = pd.DataFrame(cols)
-    formula = {"arg": "y ~ I(nm)", "callee": "y ~ nm(x)", "dotted": "y ~ mod.nm(x)", "bq": "y ~ I(`my nm`)"}[role]
-    extra = {name: val(VAL["extra"])} if "extra" in d else None
+    formula = {"arg": "y ~ I(nm)", "callee": "y ~ nm(x)", "dotted": "y ~ mod.nm(x)", "bq": "y ~ I(`my nm`)",
+               "arg-none": "y ~ sel_(x, nm)"}[role]
+    extra = {name: val(VAL["extra"], "extra")} if "extra" in d else None
+    if role == "arg-none":
+        extra = dict(extra or {})
+        extra["sel_"] = lambda a, b: a if b is None else a * 0 + b
     # nested callers, each with its own globals and locals
     inner = None
     for j in range(NFRAMES):
         g = {"__builtins__": __builtins__, "design_matrices": design_matrices, "df": df, "formula": formula,
              "extra": extra, "depth": c["depth"], "inner": inner}
         if "global" in d:
-            g[name] = val(20.0 + j)
+            g[name] = val(20.0 + j, "global")
         body = "    nm_local_marker = 0\n"
         if "local" in d and role != "bq":
-            g["_lv"] = val(10.0 + j)
+            g["_lv"] = val(10.0 + j, "local")
             body += f"    {name} = _lv\n"
         if j == 0:
             body += "    return design_matrices(formula, df, env=depth, extra_namespace=extra)\n"
@@ -128,7 +160,7 @@ def _run(c):
     saved = T.TRANSFORMS.get(name, None)
     had = name in T.TRANSFORMS
     if "builtin" in d:
-        T.TRANSFORMS[name] = val(VAL["builtin"])
+        T.TRANSFORMS[name] = val(VAL["builtin"], "builtin")
     try:
         # the outermost caller is NFRAMES - 1 levels above the immediate caller of design_matrices
         dm_ = inner()
